@@ -155,7 +155,7 @@ pub const C01: Spec = Spec {
   transform: identity,
   judge: c01_judge,
   opts: Opts::default,
-  quick: (8, 1500),
+  quick: (8, 15000),
   thorough: (16, 20000),
   assumptions: &["from-scratch evaluator (model.rs) is the specification of a clean build", "external changes only between sessions (P1)", "programs obey the static-role discipline of DESIGN.md §4.2"],
 };
@@ -208,7 +208,7 @@ pub const C02: Spec = Spec {
   transform: probe_same_roots,
   judge: c02_judge,
   opts: Opts::default,
-  quick: (8, 1500),
+  quick: (8, 15000),
   thorough: (16, 20000),
   assumptions: &["task-side log is ground truth for what a task's last execution did", "checker relations of model.rs (O4)"],
 };
@@ -274,7 +274,7 @@ pub const C03: Spec = Spec {
   transform: probe_all_after_bottom_up,
   judge: c03_judge,
   opts: Opts::default,
-  quick: (8, 1500),
+  quick: (8, 15000),
   thorough: (16, 20000),
   assumptions: &["complete report = every resource changed externally since the last complete bottom-up build (tracked by the history builder)", "C03-F1 (task left stale by a partial top-down build) is attributed by a model-only signature"],
 };
@@ -313,7 +313,7 @@ pub const C04: Spec = Spec {
   transform: identity,
   judge: c04_judge,
   opts: Opts::default,
-  quick: (8, 1500),
+  quick: (8, 15000),
   thorough: (16, 20000),
   assumptions: &["recorded require graph = shadow record built from the task-side log"],
 };
